@@ -24,6 +24,8 @@ def pool():
     p.append(('id1.v2', ident(1, '2020-01-01T00:00:00.500Z', 'a2')))
     p.append(('id1.v2-respelled', ident(1, '2020-01-01T00:00:00.5Z', 'a2')))
     p.append(('id1.v3', ident(1, '2020-01-01T00:00:00.500001Z', 'a3')))
+    p.append(('id1.v3b', ident(1, '2020-01-01T00:00:00.500002Z', 'a3b')))           # several versions inside one millisecond
+    p.append(('id1.v3c', ident(1, '2020-01-01T00:00:00.500999Z', 'a3c')))
     p.append(('id1.v4', ident(1, '2020-01-01T00:00:01Z', 'a4')))
     p.append(('id2.v1', ident(2, '2020-02-01T00:00:00.100Z', 'b1')))
     p.append(('id2.v2', ident(2, '2020-02-01T00:00:00.1001Z', 'b2')))
@@ -41,6 +43,11 @@ def pool():
                                                         'modified': '2020-01-01T00:00:00.000Z', 'foo': 1}))
     p.append(('unregistered custom (kept as dict).v2', {'type': 'x-vf-unreg', 'spec_version': '2.1', 'id': 'x-vf-unreg--' + U(8), 'created': '2020-01-01T00:00:00.000Z',
                                                         'modified': '2020-01-02T00:00:00.000Z', 'foo': 2}))
+    # identifiers whose UUID is not version 4 (2.1 asks for the RFC 4122 variant only; deterministic SCO ids are version 5)
+    p.append(('UUIDv5 id.v1', dict(ident(1, '2020-05-01T00:00:00.000Z', 'v5a'), id='identity--0000000a-0000-5000-8000-00000000000a')))
+    p.append(('UUIDv5 id.v2', dict(ident(1, '2020-05-02T00:00:00.000Z', 'v5b'), id='identity--0000000a-0000-5000-8000-00000000000a')))
+    p.append(('UUIDv1 id (only object of its type)', {'type': 'campaign', 'spec_version': '2.1', 'id': 'campaign--0000000b-0000-1000-8000-00000000000b', 'created': '2020-01-01T00:00:00.000Z',
+                                                      'modified': '2020-01-01T00:00:00.000Z', 'name': 'c'}))
     p.append(('unregistered custom without modified (stored as a plain file next to versioned ones)', {'type': 'x-vf-unreg', 'spec_version': '2.1', 'id': 'x-vf-unreg--' + U(9),
                                                                                                       'created': '2020-01-01T00:00:00.000Z', 'foo': 3}))
     return p
